@@ -32,6 +32,11 @@ CHECKS = {
    text="Engine B: every history (depth 10 local store / 9 k8s store; thorough 14/12 or fixpoint) of gain / lose / other-leader / leaderCheck / report / acquire / cluster update / cluster delete / cleanup over 2 shards with one upstream each is applied to the real server; an operation may succeed or change any store only under leadership of the upstream's shard, a refusal must name the leader and leave the dump of all stores unchanged, a lost or handed-over shard has no store afterwards and a regained one starts without earlier instance state. Engine C: every byte string of length <= 2 over a 24-byte alphabet plus 2 000 (thorough 100 000) realistic names x N in 1..17, 31..33, 64, 1000, 65536, 2^31-1: range, determinism, gateway == server (the server's request paths are checked to use the same mapping under N in {1,2,3,5}), and requests issued through ClientFor arrive at the stub that leads the shard - also after the advertised shard count changes on a live clientSets.",
    ref="DESIGN.md §6 C13",
    note="Trusted: callback orders of client-go v0.18 leader election as modelled in h/c13 (stated in the evidence), fake clientsets as API server, loopback stubs as limiter servers, add-only hooks (VerifNew without timer loops, elector callbacks, lister indexer)."),
+ "C07": dict(cat="model_checking", engine="xstate+vsched+enum",
+   technique="explicit-state BFS over honest report / limit-change / forget-and-return histories on the real rateLimiter + stateless model checking of overlapping reports and limit changes (preemption-bounded) + full-product enumeration of the allocator arithmetic",
+   text="Engine C: calculateNextQuota over the full product of a numeric grid built from its branch boundaries (14 limits up to 2^31-1, recorded sums from 0 to 8x the limit, honest previous quotas, usage, instance and upstream request levels, client counts, global bursts): 1 <= quota <= limit, no over-commit from a sum within the limit (quota 1 aside), no growth above the limit, burst scaled and <= global burst. Engine B: every history to depth 5 (thorough 7) of reports at four load levels by 2-3 honest instances, limit lowered/restored, and instances forgotten by the cleanup passes and returning with their old quota, for max-in-flight and token-bucket schemas with limits 10 and 100; after every report the answered quota, the recorded sum (store and .state condition) and the no-growth rule are checked. Engine A: two/three overlapping loaded reports near the limit and reports racing a limit change, on the local and the API-backed store, all interleavings up to 2 preemptions (thorough 3).",
+   ref="DESIGN.md §6 C07",
+   note="Trusted: honest-instance model in h/c07, limiter rig (leader election callbacks delivered directly, fake clientsets), shim semantics; statement-level schedule points in UpdateRateLimitConditionStatus, UpstreamConditionHandler and calculateUpstreamCondition only."),
 }
 def manifest():
     checks = []
